@@ -98,6 +98,8 @@ struct Config {
     Bytes master_override;         // 48 bytes: use this master secret wherever the puppet would take the resumed session's secret (or, lacking any key exchange,
                                    // derive one from an empty premaster) - "wrong session secret" deviations; a ClientKeyExchange still computes the real one
     std::vector<uint16_t> extra_suites; // client: offered in addition to `suite` (after it)
+    Bytes server_random_tail;           // server: 8 bytes written over the end of ServerHello.random (RFC 8446 4.1.3 downgrade sentinels); keys follow the random really sent
+    bool server_no_extensions = false;  // server: ServerHello without an extensions block (extended master secret is then not acknowledged)
     int server_suite_override = -1;     // server: put this suite in ServerHello regardless of the offer (C07); keys still follow `suite`
 };
 
